@@ -562,6 +562,30 @@ func gitNetExec(c *Ctx, op string) {
 			}
 		}
 	}
+	// the served repository moves on while rio holds a cached clone of it: a new commit on a branch HEAD does not point
+	// at (HEAD's own commit stays), then one on HEAD's branch; both are commits of the repository and must unpack
+	{
+		gitCmd(repo, "checkout", "-q", "-b", "feature")
+		cFeat := commit("feature.txt", "arrived after the clone was cached")
+		gitCmd(repo, "checkout", "-q", def)
+		for i, cs := range []struct{ commit, file, how string }{{cFeat, "feature.txt", "added on another branch after the clone was cached"}, {"", "later.txt", "added on HEAD's branch after the clone was cached"}} {
+			if cs.commit == "" {
+				cs.commit = commit("later.txt", "later")
+			}
+			dst := filepath.Join(base, fmt.Sprintf("dst-later%d", i))
+			_, e, pan := safeCall(func() (api.WareID, error) {
+				return gittrans.Unpack(context.Background(), api.WareID{Type: "git", Hash: cs.commit}, dst, uf, rio.Placement_Direct, wh, rio.Monitor{})
+			})
+			if pan != "" {
+				c.PropFail("git-panic", "unpack over git://: "+pan, op)
+			} else if e != nil {
+				c.PropFail("git-unpack-failed", fmt.Sprintf("a commit the remote repository has (%s) cannot be unpacked over git://: %v", cs.how, e), op)
+			} else if _, se := os.Lstat(filepath.Join(dst, cs.file)); se != nil {
+				c.PropFail("git-missing", fmt.Sprintf("unpack over git:// of the commit %s lacks %s", cs.how, cs.file), op)
+			}
+		}
+		c.H("gitnet:moved-on")
+	}
 	// the neighbour repository, through the same cache: it has its own commit and lacks the first repository's
 	if len(cOther) == 40 {
 		wh2 := []api.WarehouseLocation{api.WarehouseLocation(fmt.Sprintf("git://127.0.0.1:%d/NetRepo", port))}
